@@ -163,6 +163,18 @@ func (fg *FuncGen) instr(in ssa.Instruction) {
 			rs = append(rs, fg.valueOf(r))
 		}
 		b := v.Block()
+		if fg.linear && len(rs) > 0 {
+			for i, r := range v.Results {
+				if isNodeType(r.Type()) {
+					fg.pendSet(rs[i], false)
+				}
+			}
+			last := rs[len(rs)-1]
+			if last.Sort == "Iface" && !isNodeType(v.Results[len(rs)-1].Type()) {
+				fg.obl("linear", "", v.Pos(), []string{"C04", "C01", "C17"}, fmt.Sprintf("(=> (= (itype %s) 0) (forall ((k Int)) (! (not (select %s k)) :pattern ((select %s k)))))", last.S, fg.famIn(fg.st, "G_pend"), fg.famIn(fg.st, "G_pend")),
+					"on success every AST node parsed or built in this call is part of the returned node (nothing parsed is dropped)")
+			}
+		}
 		fg.retBlocks = append(fg.retBlocks, b)
 		fg.retVals[b] = rs
 		fg.retSt[b] = fg.st.Copy()
@@ -174,6 +186,9 @@ func (fg *FuncGen) instr(in ssa.Instruction) {
 		val := fg.valueOf(v.Val)
 		fg.frameCheck(p, v.Pos(), "store")
 		fg.store(p, val.S)
+		if isNodeType(v.Val.Type()) {
+			fg.pendSet(val, false) // the node becomes part of another node (or of a list of nodes)
+		}
 	case *ssa.TypeAssert:
 		fg.typeAssert(v)
 	case *ssa.Defer, *ssa.Go, *ssa.Select, *ssa.Send:
@@ -747,10 +762,16 @@ func (fg *FuncGen) makeInterface(v *ssa.MakeInterface) {
 	if _, ok := xt.Underlying().(*types.Pointer); ok {
 		fg.define(v, fmt.Sprintf("(mkiface %d %s)", id, x.S))
 		fg.checkTypeInv(xt, x.S, v.Pos())
+		if isNodeType(v.Type()) {
+			fg.pendSet(fg.valueOf(v), true) // a node built here
+		}
 		return
 	}
 	ref := fg.box(xt, x.S)
 	fg.define(v, fmt.Sprintf("(mkiface %d %s)", id, ref))
+	if isNodeType(v.Type()) {
+		fg.pendSet(fg.valueOf(v), true)
+	}
 }
 
 // box stores a non-pointer value behind a fresh reference.
@@ -879,6 +900,9 @@ func (fg *FuncGen) mapUpdate(v *ssa.MapUpdate) {
 	val := fg.valueOf(v.Value)
 	mt := v.Map.Type().Underlying().(*types.Map)
 	fg.obl("safe.nil", "", v.Pos(), safetyTags, "(not (= "+m.S+" 0))", "assignment to entry in non-nil map")
+	if isNodeType(v.Value.Type()) {
+		fg.pendSet(val, false)
+	}
 	fg.frameCheck(&Ptr{Kind: "obj", Ref: m.S}, v.Pos(), "map update")
 	vf, df, cf := g.MapFamilies(g.SortOf(mt.Elem()))
 	key := fg.mapKey(k)
